@@ -5,6 +5,8 @@
 (* bytes lie inside the variable's region (so never in the header or another variable, given a valid layout). *)
 From Coq Require Import ZArith List.
 From Pnc Require Import Proofs_Access.
+From Pnc Require Import Proofs_CheckScs.
+From Pnc Require Import Proofs_RoundTrip.
 Set Printing Width 100.
 Set Printing Depth 100000.
 
@@ -70,3 +72,131 @@ Theorem C15_offsets_nodup :
          NoDup (Access.model_offsets g start count (Some stride)).
 Proof. exact @model_offsets_NoDup. Qed.
 Print Assumptions C15_offsets_nodup.
+
+Theorem C15_check_scs_iff_fits :
+  forall (fmt : Z) (strict isrec isread : bool) (kind : Access.apikind) 
+           (shape : list Z) (numrecs : Z) (start count stride : option (list Z)),
+         match start with
+         | Some st => lengths_ok isrec shape st count stride
+         | None => True
+         end ->
+         Access.check_scs fmt strict isrec isread kind shape numrecs start count stride =
+         Gen_consts.NC_NOERR <->
+         fits_b fmt strict isrec isread kind shape numrecs start count stride = true.
+Proof. exact @check_scs_iff_fits. Qed.
+Print Assumptions C15_check_scs_iff_fits.
+
+Theorem C15_check_scs_iff_fits_prop :
+  forall (fmt : Z) (strict isrec isread : bool) (kind : Access.apikind) 
+           (shape : list Z) (numrecs : Z) (st cn : list Z) (stride : option (list Z)),
+         lengths_ok isrec shape st (Some cn) stride ->
+         Access.check_scs fmt strict isrec isread kind shape numrecs (Some st) (Some cn) stride =
+         Gen_consts.NC_NOERR <-> fits fmt strict isrec isread shape numrecs st cn stride.
+Proof. exact @check_scs_iff_fits_prop. Qed.
+Print Assumptions C15_check_scs_iff_fits_prop.
+
+Theorem C15_check_scs_codes :
+  forall (fmt : Z) (strict isrec isread : bool) (kind : Access.apikind) 
+           (shape : list Z) (numrecs : Z) (start count stride : option (list Z)),
+         is_code (Access.check_scs fmt strict isrec isread kind shape numrecs start count stride).
+Proof. exact @check_scs_codes. Qed.
+Print Assumptions C15_check_scs_codes.
+
+Theorem C15_first_bad_dimension_decides :
+  forall (fmt : Z) (strict isrec isread : bool) (kind : Access.apikind) 
+           (shape : list Z) (numrecs : Z) (st cn : list Z) (stride : option (list Z)) 
+           (i : nat),
+         lengths_ok isrec shape st (Some cn) stride ->
+         starts_ok_b fmt strict isrec isread shape numrecs st (Some cn) = true ->
+         let shp := shp_of isrec shape numrecs in
+         i < length shape ->
+         (forall j : nat, j < i -> code_at_s isrec isread st cn stride shp j = Gen_consts.NC_NOERR) ->
+         code_at_s isrec isread st cn stride shp i <> Gen_consts.NC_NOERR ->
+         Access.check_scs fmt strict isrec isread kind shape numrecs (Some st) (Some cn) stride =
+         code_at_s isrec isread st cn stride shp i.
+Proof. exact @check_scs_first_bad_dim. Qed.
+Print Assumptions C15_first_bad_dimension_decides.
+
+Theorem C15_perturb_neg_start :
+  forall (fmt : Z) (strict isrec isread : bool) (kind : Access.apikind) 
+           (shape : list Z) (numrecs : Z) (st : list Z) (count stride : option (list Z)) 
+           (i : nat) (v : Z),
+         lengths_ok isrec shape st count stride ->
+         i < length shape ->
+         (v < 0)%Z ->
+         Access.check_scs fmt strict isrec isread kind shape numrecs (Some (set_nth i v st)) count
+           stride = Gen_consts.NC_EINVALCOORDS.
+Proof. exact @perturb_neg_start. Qed.
+Print Assumptions C15_perturb_neg_start.
+
+Theorem C15_perturb_start_too_large :
+  forall (fmt : Z) (strict isrec isread : bool) (kind : Access.apikind) 
+           (shape : list Z) (numrecs : Z) (st : list Z) (count stride : option (list Z)) 
+           (i : nat) (v : Z),
+         lengths_ok isrec shape st count stride ->
+         i < length shape ->
+         bounded_dim isrec isread i = true ->
+         (if strict
+          then (nth i (shp_of isrec shape numrecs) 0 <= v)%Z
+          else (nth i (shp_of isrec shape numrecs) 0 < v)%Z) ->
+         Access.check_scs fmt strict isrec isread kind shape numrecs (Some (set_nth i v st)) count
+           stride = Gen_consts.NC_EINVALCOORDS.
+Proof. exact @perturb_start_too_large. Qed.
+Print Assumptions C15_perturb_start_too_large.
+
+Theorem C15_perturb_neg_count :
+  forall (fmt : Z) (strict isrec isread : bool) (kind : Access.apikind) 
+           (shape : list Z) (numrecs : Z) (st cn : list Z) (stride : option (list Z)) 
+           (i : nat) (v : Z),
+         lengths_ok isrec shape st (Some cn) stride ->
+         Access.check_scs fmt strict isrec isread kind shape numrecs (Some st) (Some cn) stride =
+         Gen_consts.NC_NOERR ->
+         i < length shape ->
+         (v < 0)%Z ->
+         Access.check_scs fmt strict isrec isread kind shape numrecs (Some st)
+           (Some (set_nth i v cn)) stride = Gen_consts.NC_ENEGATIVECNT.
+Proof. exact @perturb_neg_count. Qed.
+Print Assumptions C15_perturb_neg_count.
+
+Theorem C15_perturb_count_too_large :
+  forall (fmt : Z) (strict isrec isread : bool) (kind : Access.apikind) 
+           (shape : list Z) (numrecs : Z) (st cn : list Z) (stride : option (list Z)) 
+           (i : nat) (v : Z),
+         lengths_ok isrec shape st (Some cn) stride ->
+         Access.check_scs fmt strict isrec isread kind shape numrecs (Some st) (Some cn) stride =
+         Gen_consts.NC_NOERR ->
+         i < length shape ->
+         bounded_dim isrec isread i = true ->
+         (nth i st 0 < nth i (shp_of isrec shape numrecs) 0)%Z ->
+         (nth i (shp_of isrec shape numrecs) 0 < nth i st 0 + v)%Z ->
+         Access.check_scs fmt strict isrec isread kind shape numrecs (Some st)
+           (Some (set_nth i v cn)) stride = Gen_consts.NC_EEDGE.
+Proof. exact @perturb_count_too_large. Qed.
+Print Assumptions C15_perturb_count_too_large.
+
+Theorem C15_perturb_bad_stride :
+  forall (fmt : Z) (strict isrec isread : bool) (kind : Access.apikind) 
+           (shape : list Z) (numrecs : Z) (st cn t : list Z) (i : nat) (v : Z),
+         lengths_ok isrec shape st (Some cn) (Some t) ->
+         Access.check_scs fmt strict isrec isread kind shape numrecs (Some st) (Some cn) (Some t) =
+         Gen_consts.NC_NOERR ->
+         i < length shape ->
+         (v <= 0)%Z ->
+         Access.check_scs fmt strict isrec isread kind shape numrecs (Some st) 
+           (Some cn) (Some (set_nth i v t)) = Gen_consts.NC_ESTRIDE.
+Proof. exact @perturb_bad_stride. Qed.
+Print Assumptions C15_perturb_bad_stride.
+
+Theorem C15_put_frame :
+  forall (g : Access.geom) (start count stride : list Z) (d : Disk.disk) 
+           (bs : list Base.byte) (x : Z),
+         wf_geom g ->
+         req_ok (Access.g_shape g) start count stride ->
+         (forall idx : list Z,
+          In idx (Access.req_indices start count stride) ->
+          ~ in_elem (Access.g_xsz g) (Access.elem_off g idx) x) ->
+         Disk.dk_get
+           (Disk.dk_scatter d (Access.g_xsz g) (Access.model_offsets g start count (Some stride)) bs)
+           x = Disk.dk_get d x.
+Proof. exact @put_frame. Qed.
+Print Assumptions C15_put_frame.
